@@ -143,7 +143,7 @@ def raised_violation(exc, repo_pkg, op_desc, extra_clause=""):
 
 # --------------------------------------------------------------------------- per-run wall guard
 
-_RUN_GUARD_S = float(os.environ.get("VERIF_RUN_GUARD_S", "30"))
+_RUN_GUARD_S = float(os.environ.get("VERIF_RUN_GUARD_S", "90"))
 
 
 def _alarm(signum, frame):
